@@ -1,3 +1,48 @@
+/-
+  C11 — next/prev_transition enumerate exactly the zone's real changes (table level).
+-/
 import Cctz.Model.Tz
+import Cctz.Spec.TableSem
+import Cctz.Proofs.Transitions
+
 namespace Cctz.C11
+open Cctz Cctz.Tz Cctz.Spec
+
+/-- next_transition(t): the earliest real change strictly after `t`, or none when there is none -/
+def nextTransition_statement : Prop :=
+  ∀ (z : Zone) (t : Int), TableWF z →
+    (nextTransition z t).flags.oob = false ∧
+    match (nextTransition z t).val with
+    | none => ∀ i, RealChange z i → (trn z i).unixTime ≤ t
+    | some r => ∃ i, RealChange z i ∧ t < (trn z i).unixTime ∧ r = reportOf z i ∧
+        ∀ j, RealChange z j → t < (trn z j).unixTime → (trn z i).unixTime ≤ (trn z j).unixTime
+
+/-- prev_transition(t): the latest real change strictly before `t`, or none -/
+def prevTransition_statement : Prop :=
+  ∀ (z : Zone) (t : Int), TableWF z →
+    (prevTransition z t).flags.oob = false ∧
+    match (prevTransition z t).val with
+    | none => ∀ i, RealChange z i → t ≤ (trn z i).unixTime
+    | some r => ∃ i, RealChange z i ∧ (trn z i).unixTime < t ∧ r = reportOf z i ∧
+        ∀ j, RealChange z j → (trn z j).unixTime < t → (trn z j).unixTime ≤ (trn z i).unixTime
+
+/-- at the ends of the range nothing is reported (table times are int64 values) -/
+def ends_statement : Prop :=
+  ∀ (z : Zone), TableWF z → (∀ i, i < z.transitions.size → inI64 (trn z i).unixTime) →
+    (nextTransition z i64max).val = none ∧ (prevTransition z i64min).val = none
+
+/-- a zone without real changes always answers none -/
+def no_change_statement : Prop :=
+  ∀ (z : Zone) (t : Int), TableWF z → (∀ i, ¬ RealChange z i) →
+    (nextTransition z t).val = none ∧ (prevTransition z t).val = none
+
+/-- consecutive answers chain: the change reported by next_transition(t) is the one
+prev_transition reports from any instant after it up to the following real change -/
+def chain_statement : Prop :=
+  ∀ (z : Zone) (t : Int) (r : Fields × Fields), TableWF z → (nextTransition z t).val = some r →
+    ∃ i, RealChange z i ∧ r = reportOf z i ∧ (prevTransition z ((trn z i).unixTime + 1)).val = some r
+
+/-- the big-bang bound used by the code is the documented -2^59 -/
+def constants_statement : Prop := Gen.bigBang = -576460752303423488
+
 end Cctz.C11
